@@ -92,10 +92,13 @@ type State struct {
 	loopHeldBy map[int][]HeldLock
 	assumeTo  *State // evaluation copies forward their assumptions to the real state
 	dryFreshFrom int
-	dryFnFresh map[string]bool // arrays written in the dry run only at objects allocated by this function
+	dryKinds map[string]int // how each array is written in the dry run (wLoopFresh|wFnFresh|wArbitrary|wCallee)
 	pendingAx []pendingAxiom
 	ghosts map[string]Term // loop ghost arrays
 	curLoop int
+	regionMoved map[string]string // fresh map ref -> region it was stored into
+	calleeHavoc bool
+	localRefs []localRef // non-escaping locals of the functions on the stack
 	loopEvStart map[int]int
 	loopHeap map[int]map[string]Term // heap at the start of the symbolic iteration
 }
@@ -165,6 +168,12 @@ func (st *State) clone() *State {
 			n.loopEvStart[k] = v
 		}
 	}
+	if st.regionMoved != nil {
+		n.regionMoved = make(map[string]string, len(st.regionMoved))
+		for k, v := range st.regionMoved {
+			n.regionMoved[k] = v
+		}
+	}
 	n.ghosts = make(map[string]Term, len(st.ghosts))
 	for k, v := range st.ghosts {
 		n.ghosts[k] = v
@@ -173,6 +182,7 @@ func (st *State) clone() *State {
 	for k, v := range st.statics {
 		n.statics[k] = v
 	}
+	n.localRefs = append([]localRef(nil), st.localRefs...)
 	n.notes = append([]string(nil), st.notes...)
 	n.trace = append([]string(nil), st.trace...)
 	return &n
@@ -220,6 +230,11 @@ func (st *State) heapGet(name string, sort Sort) Term {
 		}
 	}
 	return t
+}
+
+type localRef struct {
+	prefix string
+	ref    Term
 }
 
 type pendingAxiom struct {
@@ -330,27 +345,36 @@ func (st *State) noteWrite(name string, idx *Term) {
 	if st.dryWrites == nil {
 		return
 	}
-	loopFresh := idx != nil && isFreshTerm(*idx) && freshNumber(*idx) > st.dryFreshFrom
-	if loopFresh {
-		if _, ok := st.dryWrites[name]; !ok {
-			st.dryWrites[name] = false
-		}
+	if _, ok := st.dryWrites[name]; !ok {
+		st.dryWrites[name] = false
+	}
+	switch {
+	case idx != nil && isFreshTerm(*idx) && freshNumber(*idx) > st.dryFreshFrom:
+		st.dryKinds[name] |= wLoopFresh
+	case idx != nil && isFreshTerm(*idx):
+		st.dryKinds[name] |= wFnFresh
+		st.dryWrites[name] = true
+	default:
+		st.dryKinds[name] |= wArbitrary
+		st.dryWrites[name] = true
+	}
+}
+
+// noteCalleeHavoc: a contracted callee may rewrite the whole array (but not the caller's locals).
+func (st *State) noteCalleeHavoc(name string) {
+	if st.dryWrites == nil {
 		return
 	}
 	st.dryWrites[name] = true
-	if idx != nil && isFreshTerm(*idx) {
-		// written at an object allocated earlier in this function: pre-existing objects untouched
-		if st.dryFnFresh != nil {
-			if _, ok := st.dryFnFresh[name]; !ok {
-				st.dryFnFresh[name] = true
-			}
-		}
-		return
-	}
-	if st.dryFnFresh != nil {
-		st.dryFnFresh[name] = false
-	}
+	st.dryKinds[name] |= wCallee
 }
+
+const (
+	wLoopFresh = 1 << iota // written at objects allocated inside the loop body
+	wFnFresh               // written at objects allocated earlier by this function
+	wArbitrary             // written at arbitrary objects by the function's own code
+	wCallee                // havoced wholesale by a contracted callee
+)
 
 func freshNumber(t Term) int {
 	k := strings.LastIndex(t.S, "!")
@@ -363,7 +387,11 @@ func (st *State) heapHavoc(name string, sort Sort) Term {
 	n := st.fresh("Hh", sort)
 	st.heap[name] = n
 	st.pendingAx = append(st.pendingAx, pendingAxiom{name, n, false})
-	st.noteWrite(name, nil)
+	if st.calleeHavoc {
+		st.noteCalleeHavoc(name)
+	} else {
+		st.noteWrite(name, nil)
+	}
 	return n
 }
 
@@ -427,7 +455,7 @@ func (st *State) load(ptr Val) Val {
 
 // transferMap moves a freshly made map into the region of the location it is stored to.
 func (st *State) transferMap(v Val, target string) {
-	src := regionOf(v)
+	src := st.region(v)
 	if src == target || v.T().S == "0" {
 		return
 	}
@@ -442,6 +470,10 @@ func (st *State) transferMap(v Val, target string) {
 	for i, c := range comps(from.mt.Elem()) {
 		st.heapSetAt("mapval:"+target+c.Suffix, Store(to.vals[i], r, Select(from.vals[i], r)), &r)
 	}
+	if st.regionMoved == nil {
+		st.regionMoved = map[string]string{}
+	}
+	st.regionMoved[v.T().S] = target
 	st.x.assumeNote("A-region: a map object is referenced from one location class only (the field or map-of-maps slot it was created for); maps in different location classes never alias")
 }
 
@@ -577,7 +609,18 @@ func isMapType(t types.Type) bool {
 	return ok
 }
 
-func (st *State) mapArrays(m Val) mapArrs { return st.mapArraysR(m.Typ, regionOf(m)) }
+func (st *State) mapArrays(m Val) mapArrs { return st.mapArraysR(m.Typ, st.region(m)) }
+
+// region resolves the heap region of a map value, following moves of freshly made maps.
+func (st *State) region(m Val) string {
+	r := regionOf(m)
+	if strings.HasPrefix(r, "fresh:") && st.regionMoved != nil {
+		if to, ok := st.regionMoved[m.T().S]; ok {
+			return to
+		}
+	}
+	return r
+}
 
 func (st *State) mapArraysR(t types.Type, n string) mapArrs {
 	mt := mapType(t)
@@ -663,7 +706,7 @@ func (st *State) mapCardFacts(m Val, ma mapArrs) {
 
 func (st *State) mapUpdate(m Val, k Term, v Val) {
 	if isMapType(v.Typ) {
-		st.transferMap(v, regionOf(m)+"[]")
+		st.transferMap(v, st.region(m)+"[]")
 	}
 	ma := st.mapArrays(m)
 	had := Select(Select(ma.dom, m.T()), k)
